@@ -247,6 +247,9 @@ class Normalizer:
                 return self.get(args[0], args[1])
             if path == GET and len(args) == 2:
                 return self.get(args[0], args[1])
+            if l == "then_some" and len(args) == 2 and "bool" in path:
+                # c.then_some(v)  ==  if c { Some(v) } else { None }
+                return self.rewrite(("ite", args[0], ("ctor", SOME, (args[1],)), ("ctor", "std::prelude::v1::None", ())))
             if l == "contains_key" and len(args) == 2:
                 return self.rewrite(M(self.get(args[0], args[1]), "some"))
             if l == "collect" and len(args) == 1:
@@ -286,6 +289,12 @@ class Normalizer:
                         cond = ("bin", "&&", cond, self.rewrite(("matches", ("index", x, ("lit", _int(i))), sd)))
                 return cond
             return t
+        if k == "matches" and t[2][0] == "var" and isinstance(t[2][1], str) and last(t[2][1]) in ("Some", "Ok") and t[2][3] != "struct" and len(t[2][2]) == 1 \
+                and t[2][2][0][0] == "lit" and t[1][0] not in ("ctor", "ite"):
+            # `Some(0)`: the value is Some and its payload equals the literal
+            which = "some" if last(t[2][1]) == "Some" else "ok"
+            payload = self.proj(t[1], SOME if which == "some" else OK, 0)
+            return self.rewrite(("bin", "&&", self.rewrite(M(t[1], which)), self.rewrite(("matches", payload, t[2][2][0]))))
         if k == "matches" and t[2][0] == "var" and isinstance(t[2][1], str) and desc_kind(t[2]) is None:
             x, d = t[1], t[2]
             irrefutable = all(wildish(y[1] if d[3] == "struct" else y) for y in d[2])
@@ -323,6 +332,17 @@ class Normalizer:
             return t
         if k == "matches" and t[1][0] == "lit" and t[2][0] == "lit" and type(t[1][1]) is type(t[2][1]):
             return ("lit", t[1][1] == t[2][1])            # a literal against a literal pattern
+        if k == "matches" and t[2][0] == "lit" and not isinstance(t[2][1], bool) and t[1][0] != "lit":
+            x = t[1]
+            while x[0] == "call" and isinstance(x[1], str) and last(x[1]) in ("as_str", "as_ref", "deref", "borrow") and len(x[2]) == 1:
+                x = x[2][0]
+            return self.rewrite(("bin", "==", x, t[2]))     # a value against a literal pattern is an equality test
+        if k == "matches" and t[2][0] == "or" and t[1][0] not in ("ctor", "lit") and all(d_[0] == "lit" and not isinstance(d_[1], bool) for d_ in t[2][1]):
+            acc = None
+            for d_ in t[2][1]:
+                c_ = self.rewrite(("matches", t[1], d_))
+                acc = c_ if acc is None else self.rewrite(("bin", "||", acc, c_))
+            return acc
         if k == "matches" and t[2][0] == "or" and t[1][0] in ("ctor", "lit"):
             # a known variant against an or-pattern: one of the alternatives matches
             alts = [self.rewrite(("matches", t[1], d_)) for d_ in t[2][1]]
@@ -398,6 +418,14 @@ class Normalizer:
             if dk == "err":
                 return neg(M(x, "ok"))
             return t
+        if k == "bin" and t[1] in ("&&", "||") and (t[2][0] == "lit" or t[3][0] == "lit"):
+            # Boolean connectives with a known operand
+            a, b = t[2], t[3]
+            for x, y in ((a, b), (b, a)):
+                if x[0] == "lit" and isinstance(x[1], bool):
+                    if t[1] == "&&":
+                        return y if x[1] else ("lit", False)
+                    return ("lit", True) if x[1] else y
         if k == "not":
             x = t[1]
             if x[0] == "not":
@@ -450,8 +478,8 @@ class Normalizer:
             c = self.rewrite(("matches", t[1], t[2][0][0][0]))
             if not (c[0] == "matches" and c[1] == t[1]):
                 return self.rewrite(("ite", c, t[2][0][1], t[2][1][1]))
-        if k == "switch" and len(t[2]) >= 2 and wildish(t[2][-1][0][0]) and t[2][-1][0][1] is None \
-                and all(d[0] in ("var", "wild", "lit", "or") for (d, g), v in t[2]) and self.is_variant_tree_or_none(t[2]):
+        if k == "switch" and len(t[2]) >= 2 and t[2][-1][0][1] is None and all(d[0] in ("var", "wild", "lit", "or") for (d, g), v in t[2]) \
+                and ((wildish(t[2][-1][0][0]) and self.is_variant_tree_or_none(t[2])) or self.decidable_switch(t[2])):
             # a `match` with guards that yields Some(..) / None: arms are tried in order, an arm is taken when its pattern matches and its
             # guard holds (patterns bind nothing here: bound names are projections of the scrutinee)
             scrut, arms = t[1], t[2]
@@ -685,6 +713,20 @@ class Normalizer:
             return b
         return self.rewrite(("bin", "+", a, b))
 
+    def decidable_switch(self, arms):
+        """A `match` on an Option / Result with literal payload patterns (`None`, `Some(0)`, `Some(i)`) or on a string / integer with
+        literal patterns and a default: every arm's test is a plain condition, the last arm of the exhaustive match is the default."""
+        def variant(d):
+            return d[0] == "var" and isinstance(d[1], str) and last(d[1]) in ("Some", "None", "Ok", "Err") and d[3] != "struct" \
+                and all(wildish(x) or x[0] == "lit" for x in d[2])
+
+        def literal(d):
+            return (d[0] == "lit" and not isinstance(d[1], bool)) or (d[0] == "or" and all(literal(x) for x in d[1]))
+        pats = [d for (d, g), v in arms]
+        if all(variant(d) or wildish(d) for d in pats) and any(variant(d) and desc_kind(d) is None for d in pats):
+            return True
+        return wildish(pats[-1]) and all(literal(d) for d in pats[:-1]) and len(pats) >= 2
+
     def is_variant_tree_or_none(self, arms):
         return all(self.is_variant_tree(v) for _, v in arms)
 
@@ -853,6 +895,11 @@ class Normalizer:
                                 t2, pol2 = t2[1], not pol2
                             if not (t2[0] == "lit" and isinstance(t2[1], bool)):
                                 out.append(("if", t2, pol2, c[4] if len(c) > 4 else None))
+                elif d[0] == "var" and isinstance(d[1], str) and last(d[1]) in ("Some", "Ok") and d[3] != "struct" and len(d[2]) == 1 and d[2][0][0] == "lit" \
+                        and not (len(c) > 7 and c[7]):
+                    # `Some(0) => ..`: the value is Some and its payload is the literal (earlier arms of other variants cannot interfere)
+                    t = self.rewrite(("matches", scrut, d))
+                    out.append(("if", t, c[3], c[4] if len(c) > 4 else None))
                 else:
                     c2 = tuple(c[2:])
                     if len(c) > 7 and c[7]:
